@@ -8,12 +8,19 @@ import (
 	"os"
 	"runtime"
 	"strings"
+	"sync"
+	"sync/atomic"
 
 	"pault.ag/go/debian/verifhook"
 
 	"verifharness/mc"
 )
 
+// Locks of the code under test (sync.Mutex, sync.RWMutex, sync.Once - rewritten to verifhook.Lock etc. by the
+// instrumenter) are modelled: taking and releasing one is a scheduling point, a thread that cannot take one waits
+// inside the scheduler until something was released, and an execution in which every unfinished thread waits is
+// reported as a deadlock. Code that synchronises correctly is therefore explored, not hung.
+//
 // Cooperative scheduler: exactly one worker runs at a time; every access to a package-level variable of the
 // module (and, once an execution has performed such an access, every loop iteration of the parser packages) is a
 // scheduling point at which the explorer decides who runs next. Choice 0 = the running thread continues;
@@ -28,27 +35,56 @@ type SchedIn struct {
 }
 
 type event struct {
-	tid  int
-	done bool
+	tid     int
+	done    bool
+	blocked bool // the thread could not take a lock of the code under test and waits for a release
 }
 
 type schedExec struct {
-	threads [][]call
-	turn    []chan struct{}
-	back    chan event
-	touched bool
-	results [][]Result
-	points  int
+	threads  [][]call
+	turn     []chan struct{}
+	back     chan event
+	touched  bool
+	released bool // some lock was released since the scheduler last looked
+	abort    bool // a deadlock was established: waiting threads unwind
+	deadlock bool
+	results  [][]Result
+	points   int
 }
+
+type deadlockAbort struct{}
 
 func (e *schedExec) point(tid int) {
 	e.points++
-	e.back <- event{tid, false}
+	e.back <- event{tid: tid}
 	<-e.turn[tid]
+}
+
+// block: the calling thread waits for a lock. The scheduler runs somebody else; the thread is enabled again once a
+// lock was released (it then repeats its attempt). When every unfinished thread waits, the execution is a deadlock and
+// the waiting threads are unwound by a panic that their call guards absorb.
+func (e *schedExec) block(tid int) {
+	e.points++
+	e.back <- event{tid: tid, blocked: true}
+	<-e.turn[tid]
+	if e.abort {
+		panic(deadlockAbort{})
+	}
 }
 
 // runSchedule executes the thread programs under the schedule x decides; returns per-thread results.
 func runSchedule(threads [][]call, x *mc.X) ([][]Result, int) {
+	res, points, _ := runScheduleD(threads, x)
+	return res, points
+}
+
+// executions are serialised process-wide: the thread programs of different shards share whatever state the library
+// keeps (caches, locks), and a lock held by a parked thread of one execution would look like a deadlock to another
+var schedMu sync.Mutex
+
+func runScheduleD(threads [][]call, x *mc.X) ([][]Result, int, bool) {
+	schedMu.Lock()
+	defer schedMu.Unlock()
 	n := len(threads)
 	e := &schedExec{threads: threads, back: make(chan event), results: make([][]Result, n)}
 	for i := 0; i < n; i++ {
@@ -65,6 +101,8 @@ func runSchedule(threads [][]call, x *mc.X) ([][]Result, int) {
 						e.point(i)
 					}
 				},
+				OnBlock:   func(int) { e.touched = true; e.block(i) },
+				OnRelease: func(int) { e.touched = true; e.released = true; e.point(i) },
 			}
 			verifhook.Bind(ctx)
 			for _, c := range threads[i] {
@@ -73,26 +111,55 @@ func runSchedule(threads [][]call, x *mc.X) ([][]Result, int) {
 					res = Result{Summary: "panic: " + msg, Err: true, ErrText: "panic"}
 				}
 				e.results[i] = append(e.results[i], res)
+				if e.abort {
+					break
+				}
 			}
 			verifhook.Unbind()
-			e.back <- event{i, true}
+			e.back <- event{tid: i, done: true}
 		}()
 	}
 	done := make([]bool, n)
+	waiting := make([]bool, n)
 	cur := -1
 	remaining := n
 	for remaining > 0 {
+		if e.released {
+			e.released = false
+			for i := range waiting {
+				waiting[i] = false
+			}
+		}
 		var enabled []int
-		if cur >= 0 && !done[cur] {
+		if cur >= 0 && !done[cur] && !waiting[cur] {
 			enabled = append(enabled, cur)
 		}
 		for i := 0; i < n; i++ {
-			if !done[i] && i != cur {
+			if !done[i] && !waiting[i] && i != cur {
 				enabled = append(enabled, i)
 			}
 		}
+		if len(enabled) == 0 {
+			// every unfinished thread waits for a lock nobody will release
+			e.deadlock, e.abort = true, true
+			for i := 0; i < n; i++ {
+				if !done[i] {
+					e.turn[i] <- struct{}{}
+					for {
+						ev := <-e.back
+						if ev.done {
+							break
+						}
+						e.turn[ev.tid] <- struct{}{} // a scheduling point met while unwinding: keep going
+					}
+					done[i] = true
+					remaining--
+				}
+			}
+			break
+		}
 		var c int
-		if cur >= 0 && !done[cur] {
+		if cur >= 0 && !done[cur] && !waiting[cur] {
 			c = x.Deviate(len(enabled), "preempt") // 0 = keep running; anything else preempts a runnable thread
 		} else {
 			c = x.Choose(len(enabled), "next")
@@ -104,11 +171,16 @@ func runSchedule(threads [][]call, x *mc.X) ([][]Result, int) {
 			done[ev.tid] = true
 			remaining--
 		}
+		if ev.blocked {
+			waiting[ev.tid] = true
+		}
 	}
-	return e.results, e.points
+	return e.results, e.points, e.deadlock
 }
 
 func sequential(threads [][]call) [][]Result {
+	schedMu.Lock()
+	defer schedMu.Unlock()
 	out := make([][]Result, len(threads))
 	for i, t := range threads {
 		for _, c := range t {
@@ -175,6 +247,8 @@ func threadPrograms(quick bool) [][][]call {
 
 const schedCap = 300000
 
+var schedDiverged int64 // thread programs whose choice tree changed between executions (library state persists)
+
 func runSchedules(r *mc.Run) {
 	progs := threadPrograms(r.Quick())
 	sites := map[string]interface{}{}
@@ -201,7 +275,7 @@ func runSchedules(r *mc.Run) {
 			if capped {
 				return
 			}
-			got, pts := runSchedule(threads, x)
+			got, pts, dead := runScheduleD(threads, x)
 			if pts > maxPoints {
 				maxPoints = pts
 			}
@@ -211,7 +285,11 @@ func runSchedules(r *mc.Run) {
 				st.Nontrivial++
 			}
 			in := SchedIn{threads, x.Choices()}
-			if v := compare("schedules-preemption-bounded", in, want, got); v != nil {
+			if dead {
+				st.Violate(mc.V("schedules-preemption-bounded", "returns-without-hanging", in, "every call returns", "deadlock: every unfinished thread waits for a lock of the library that no running thread will release"))
+				st.Class("deadlock")
+				capped = true
+			} else if v := compare("schedules-preemption-bounded", in, want, got); v != nil {
 				st.Violate(v)
 				st.Class("differs-from-sequential")
 				capped = true // a counterexample schedule for this program is enough; the remaining schedules are not executed
@@ -228,10 +306,16 @@ func runSchedules(r *mc.Run) {
 			st.Sample(map[string]interface{}{"threads": threads, "schedules_explored": execs, "scheduling_points_in_longest_execution": maxPoints})
 		}
 		if div != "" {
-			st.Violate(mc.V("schedules-preemption-bounded", "replay-is-deterministic", SchedIn{threads, nil}, "the same choices reach the same scheduling points", div))
+			// the same choices did not reach the same scheduling points: the library keeps state from one execution to
+			// the next (a cache that fills, a pool), so the choice tree of this program is not a fixed tree. That is not
+			// a violation; the program's exploration is reported as incomplete.
+			st.Class("state-persists-across-executions:exploration-incomplete")
+			atomic.AddInt64(&schedDiverged, 1)
+			return false
 		}
 		return true
 	})
+	r.Extra["thread_programs_whose_choice_tree_changed_between_executions"] = atomic.LoadInt64(&schedDiverged)
 }
 
 func bucket(n int) int {
@@ -252,8 +336,10 @@ func replaySchedule(scen string, raw json.RawMessage) []*mc.Violation {
 	var out []*mc.Violation
 	// replay exactly the recorded choice vector: Explore with bound 0 would re-enumerate, so drive X by hand through a single run
 	mc.ExploreOne(in.Choices, func(x *mc.X) {
-		got, _ := runSchedule(in.Threads, x)
-		if v := compare(scen, in, want, got); v != nil {
+		got, _, dead := runScheduleD(in.Threads, x)
+		if dead {
+			out = append(out, mc.V(scen, "returns-without-hanging", in, "every call returns", "deadlock: every unfinished thread waits for a lock of the library that no running thread will release"))
+		} else if v := compare(scen, in, want, got); v != nil {
 			out = append(out, v)
 		}
 	})
